@@ -487,7 +487,8 @@ pub fn gen(seed: u64, thorough: bool) -> Vec<String> {
         }
         out.push(format!("geo {f} {w} {h} {} {}", rng.pick(DITHS), rng.pick(QUALS)));
     }
-    // 3. encodes
+    // 3. encodes (interleaved with the cheap geometry cases below so that check.py's chunks balance)
+    let cheap = std::mem::take(&mut out);
     let enc_fmts = encodable();
     let family_reps = [
         "BC1_UNORM", "BC2_UNORM", "BC3_UNORM", "BC3_UNORM_RXGB", "BC3_UNORM_NORMAL", "BC4_UNORM",
@@ -497,7 +498,7 @@ pub fn gen(seed: u64, thorough: bool) -> Vec<String> {
     ];
     let threads_all = [1usize, 2, 3, 4, 5, 6, 7, 8, 9, 10, 11, 12, 13, 14, 15, 16];
     let orders = ["nat", "rev", "rnd", "free"];
-    let n_enc = if thorough { 40_000 } else { 1_300 };
+    let n_enc = if thorough { 40_000 } else { 9_000 };
     let mut k = 0u64;
     while (out.len() as u64) < u64::MAX && k < n_enc {
         k += 1;
@@ -570,6 +571,19 @@ pub fn gen(seed: u64, thorough: bool) -> Vec<String> {
         out.push(format!("enc {name} 0 0 rgba8 none fast uni 4 nat 1"));
         out.push(format!("enc {name} 0 7 rgba8 all fast uni 4 rev 1"));
     }
+    let heavy = out;
+    let mut out = Vec::with_capacity(cheap.len() + heavy.len());
+    let step = (cheap.len() / heavy.len().max(1)).max(1);
+    let mut hi = heavy.into_iter();
+    for (i, c) in cheap.into_iter().enumerate() {
+        out.push(c);
+        if (i + 1) % step == 0 {
+            if let Some(h) = hi.next() {
+                out.push(h);
+            }
+        }
+    }
+    out.extend(hi);
     out
 }
 
@@ -657,14 +671,11 @@ pub fn split_geometry(
                 if !fr.size().is_empty() && (fr.data().as_ptr() as usize - base) % pitch != 0 {
                     orc.push(format!("fragment {i} does not start at a row start"));
                 }
-                if fr.width() != image.width() && !image.size().is_empty() {
+                if fr.width() != image.width() && !fr.size().is_empty() {
                     orc.push(format!("fragment {i} has width {} != {}", fr.width(), image.width()));
                 }
                 if off != next_row {
                     orc.push(format!("fragment {i} starts at row {off}, expected {next_row} (gap or overlap)"));
-                }
-                if len > 1 && fh == 0 {
-                    orc.push(format!("fragment {i} of {len} is empty"));
                 }
                 if i + 1 < len {
                     match sh {
